@@ -1,10 +1,12 @@
 pub mod c01;
 pub mod c09;
 pub mod c10;
+pub mod c14;
+pub mod c17;
 pub mod c09b;
 
 use crate::runner::Check;
 
 pub fn all() -> Vec<Check> {
-    vec![c01::check(), c09::check(), c10::check()]
+    vec![c01::check(), c09::check(), c10::check(), c14::check(), c17::check()]
 }
